@@ -28,6 +28,12 @@ type c17Op struct {
 	Kind    int `json:"kind"` // 0 send 1 recv 2 setdeadline 3 cancel 4 close
 	Arg     int `json:"arg"`  // setdeadline: ms from now (<0 past, 0 = zero time)
 	DelayMs int `json:"delay"`
+	// setdeadline with an ABSOLUTE instant: Abs > 0 = the deadline is Abs ms after the start of the case (instead of Arg ms from
+	// "now"), so that several calls - of one goroutine or of several - pass the very same time.Time; Rep = the call is repeated
+	// Rep more times with that same value (an application re-applying its deadline before each call, or SetDeadline followed by
+	// SetReadDeadline with the same instant).
+	Abs int `json:"abs,omitempty"`
+	Rep int `json:"rep,omitempty"`
 }
 
 type c17Yield struct {
@@ -137,15 +143,28 @@ func c17Scenario(c c17Case, v *vlib.Verdict) {
 						ev.Val = val
 					}
 				case 2:
+					var dl time.Time
 					switch {
-					case op.Arg == 0:
-						ev.Err = d.SetDeadline(time.Time{})
-					default:
-						dl := time.Now().Add(time.Duration(op.Arg) * time.Millisecond)
+					case op.Abs > 0:
+						dl = start.Add(time.Duration(op.Abs) * time.Millisecond)
+					case op.Arg != 0:
+						dl = time.Now().Add(time.Duration(op.Arg) * time.Millisecond)
+					}
+					if !dl.IsZero() {
 						ev.DL = dl.Sub(start)
 						if ev.DL == 0 {
 							ev.DL = 1
 						}
+					}
+					ev.Err = d.SetDeadline(dl)
+					// the same value again: each repetition is a call of its own in the history
+					for r := 0; r < op.Rep && r < 3; r++ {
+						ev.End = time.Since(start)
+						ev.seqEnd = seq.Add(1)
+						mu.Lock()
+						events = append(events, ev)
+						mu.Unlock()
+						ev = &c17Event{Proc: pi, Op: oi, Kind: op.Kind, Val: -1, DL: ev.DL, Start: time.Since(start), seqStart: seq.Add(1)}
 						ev.Err = d.SetDeadline(dl)
 					}
 				case 3:
@@ -332,20 +351,35 @@ func c17Scenario(c c17Case, v *vlib.Verdict) {
 		if e.Kind > 1 {
 			continue
 		}
-		overlap := false
 		var last *c17Event
+		var over []*c17Event
 		for _, sd := range events {
 			if sd.Kind != 2 && sd.Kind != 3 {
 				continue
 			}
 			if sd.seqStart < e.seqEnd && sd.seqEnd > e.seqStart {
-				overlap = true
+				over = append(over, sd)
 			}
 			if sd.seqEnd < e.seqStart && (last == nil || sd.seqEnd > last.seqEnd) {
 				last = sd
 			}
 		}
-		if overlap || (last != nil && (last.Kind == 3 || last.Err != nil)) {
+		if last != nil && (last.Kind == 3 || last.Err != nil) {
+			continue
+		}
+		// A deadline change that sets the SAME instant as the one in force changes nothing ("t will override the current
+		// deadline"): calls that overlap the judged call, or the last change before it, do not make the deadline in force
+		// ambiguous when they set that very value again.
+		same := func(sd *c17Event) bool {
+			return last != nil && last.DL != 0 && sd.Kind == 2 && sd.Err == nil && sd.DL == last.DL
+		}
+		overlap := false
+		for _, sd := range over {
+			if !same(sd) {
+				overlap = true
+			}
+		}
+		if overlap {
 			continue
 		}
 		if last != nil {
@@ -353,7 +387,7 @@ func c17Scenario(c c17Case, v *vlib.Verdict) {
 			// change before this call is unambiguous
 			ambiguous := false
 			for _, sd := range events {
-				if sd != last && (sd.Kind == 2 || sd.Kind == 3) && sd.seqStart < last.seqEnd && sd.seqEnd > last.seqStart {
+				if sd != last && (sd.Kind == 2 || sd.Kind == 3) && sd.seqStart < last.seqEnd && sd.seqEnd > last.seqStart && !same(sd) {
 					ambiguous = true
 				}
 			}
@@ -373,7 +407,9 @@ func c17Scenario(c c17Case, v *vlib.Verdict) {
 		case timedOut && e.End+time.Millisecond < D:
 			v.Failf("C17:queue:timeout-before-deadline", "%s g%d.%d returned %v at %v, before its deadline %v", c17OpNames[e.Kind], e.Proc, e.Op, e.Err, e.End, D)
 			return
-		case D > 0 && e.End > D+time.Second && e.End > e.Start+time.Second && e.seqEnd < closeSeq:
+		// (a call that only the harness's final Close released has waited the full 30 virtual s; in the real-time re-run of a
+		// frozen bubble that wait is 3 s of wall-clock time and such calls are not judged)
+		case D > 0 && e.End > D+time.Second && e.End > e.Start+time.Second && (e.seqEnd < closeSeq || !c17Realtime.Load()):
 			v.Failf("C17:queue:deadline-not-honoured", "%s g%d.%d started at %v with deadline %v in force and was still blocked at %v", c17OpNames[e.Kind], e.Proc, e.Op, e.Start, D, e.End)
 			return
 		}
@@ -406,6 +442,19 @@ func c17Scenario(c c17Case, v *vlib.Verdict) {
 	}
 	if closers > 0 {
 		v.Label("close-in-program")
+	}
+	// the same absolute deadline set more than once (successfully) while it was still in the future
+	sameDL := map[time.Duration]int{}
+	for _, e := range events {
+		if e.Kind == 2 && e.Err == nil && e.DL > 0 && e.End < e.DL {
+			sameDL[e.DL]++
+		}
+	}
+	for _, n := range sameDL {
+		if n > 1 {
+			v.Label("same-future-deadline-set-again")
+			break
+		}
 	}
 	if len(drained) > 0 {
 		v.Label("items-drained-after-close")
@@ -464,10 +513,18 @@ func c17RunFn(t *testing.T) func(c c17Case, v *vlib.Verdict) {
 
 func c17Gen(t *rapid.T) c17Case {
 	c := c17Case{Cap: rapid.IntRange(0, 4).Draw(t, "cap")}
+	// the absolute deadlines of this case (ms after its start): one or two values that the SetDeadline operations share
+	absPool := rapid.SliceOfNDistinct(rapid.SampledFrom([]int{2, 30, 250, 2000, 8000}), 1, 2, rapid.ID[int]).Draw(t, "absPool")
 	op := rapid.Custom(func(t *rapid.T) c17Op {
 		o := c17Op{Kind: rapid.SampledFrom([]int{0, 0, 0, 1, 1, 1, 2, 3, 4}).Draw(t, "kind")}
 		if o.Kind == 2 {
 			o.Arg = rapid.SampledFrom([]int{-100, 0, 1, 50, 5000}).Draw(t, "dl")
+			// four in ten: one of the case's absolute instants (so that the same time.Time is set again, by this goroutine or
+			// another one, before or while somebody waits), possibly repeated at once
+			if rapid.IntRange(0, 9).Draw(t, "absolute") < 4 {
+				o.Abs = rapid.SampledFrom(absPool).Draw(t, "abs")
+				o.Rep = rapid.SampledFrom([]int{0, 0, 1, 1, 2, 3}).Draw(t, "rep")
+			}
 		}
 		o.DelayMs = rapid.SampledFrom([]int{0, 0, 0, 1, 10, 200}).Draw(t, "delay")
 		return o
